@@ -829,3 +829,42 @@ def rule_elapsed(ctx, facts, rule):
     ok = ok and all(n in r for n in nones)
     ctx.check(ok, rule, fn.path, fn.span, "Span::elapsed returns begin_instant.elapsed() under inner = Some and None otherwise", "",
               "receiver ok: %s, Some guarded: %s" % (okr, bool(some) and fn.guarded(somes, some)), extra="elapsed")
+
+
+def rule_token_derivation_total(ctx, facts, rule):
+    """C02-R6: a token derived from a span covers every item of that span's token (one per parent trace); only
+    SpanContext::from_span may look at the first item alone."""
+    TRUNC = re.compile(r"Iterator>?::(next|take|take_while|nth|last|find|find_map|skip|skip_while|step_by|filter|filter_map|max\w*|min\w*|position|peekable|next_back|rev)$")
+    n = 0
+    for g in facts.fns.values():
+        if g.crate != "fastrace" or EXCLUDE.search(g.path):
+            continue
+        for b in g.calls_re(r"fastrace::span::SpanInner::issue_collect_token$|local_span_line::SpanLine::current_collect_token$", cleanup=False):
+            t = g.term(b)
+            if t["callee"].endswith("current_collect_token"):
+                continue
+            n += 1
+            dest = t["dest"]["l"]
+            users = []
+            for x in g.calls():
+                for a in g.term(x)["args"][:1]:
+                    if a["k"] in ("copy", "move") and root_local(g, a)[0] == dest:
+                        users.append(g.term(x)["callee"])
+            trunc = [u for u in users if TRUNC.search(u)]
+            allowed_first = g.path == "fastrace::collector::id::SpanContext::from_span"
+            ctx.check(not trunc or allowed_first, rule, g.path, g.loc(b),
+                      "every item of the issuing span's token is carried over (collect / flat_map), so a descendant of a multi-parent "
+                      "span is delivered in every parent's trace" + (" -- from_span is the one place that reads the first item only" if allowed_first else ""),
+                      "consumers %s" % [u.rsplit("::", 1)[1] for u in users],
+                      "the issued token is truncated by %s: descendants of a multi-parent span reach only one parent's trace" % trunc,
+                      extra="total")
+    ctx.floor(rule, "fastrace::span::SpanInner::issue_collect_token", n, 4, "call sites of issue_collect_token")
+    # the scope's re-issued token maps every stored item
+    fn = facts.fn("fastrace::local::local_span_line::SpanLine::current_collect_token")
+    if fn is not None:
+        bodies = [fn] + facts.closures_of(fn)
+        calls = [g.term(b)["callee"] for g in bodies for b in g.calls() if not g.blocks[b]["cleanup"]]
+        trunc = [c for c in calls if TRUNC.search(c)]
+        has = any(re.search(r"Iterator>?::map$", c) for c in calls) and any(re.search(r"Iterator>?::collect$", c) for c in calls)
+        ctx.check(has and not trunc, rule, fn.path, fn.span, "a scope re-issues its token item by item (iter -> map -> collect)", "",
+                  "iterator calls %s" % sorted({c.rsplit('::', 1)[1] for c in calls}), extra="scope-total")
